@@ -497,6 +497,9 @@ impl LiveActor {
         match result {
             Err(ConnectError::RemoteAbort(AbortReason::AlreadySyncing)) => {
                 debug!(?reason, "remote abort, already syncing");
+                // Our dial is over. Unless a session accepted from that peer took the slot over in
+                // the meantime, free it: otherwise no sync with this peer is ever started again.
+                self.state.abort_connect(&namespace, peer);
             }
             res => {
                 self.on_sync_finished(
